@@ -28,6 +28,10 @@ pub enum Op {
     DeposedLeader { key: u8 },
     /// kill the leader itself (leader change between two writes)
     KillLeader,
+    /// publish key (2 or 3) through the leader, kill -9 the leader as soon as it has answered, wait until the survivors
+    /// have a leader, REMOVE the key through a survivor as the first write of the new term (`direct`) or after a write
+    /// to another key, then write another key
+    PublishKillLeaderRemove { key: u8, via: u8, direct: bool },
 }
 
 #[derive(Debug, Clone, Serialize, Deserialize)]
@@ -45,6 +49,17 @@ fn op_strategy() -> impl Strategy<Value = Op> {
         2 => (50u16..1500).prop_map(|ms| Op::Pause { ms }),
         1 => Just(Op::KillLeader),
     ]
+}
+
+pub fn case_strategy_kill_remove() -> BoxedStrategy<Case> {
+    (prop::collection::vec(op_strategy(), 2..8), 0u8..2, 0u8..2, prop::bool::weighted(0.7), prop::collection::vec(op_strategy(), 1..6))
+        .prop_map(|(mut a, key, via, direct, b)| {
+            a.push(Op::Heal);
+            a.push(Op::PublishKillLeaderRemove { key, via, direct });
+            a.extend(b);
+            Case { ops: a }
+        })
+        .boxed()
 }
 
 pub fn case_strategy(with_template: bool) -> BoxedStrategy<Case> {
@@ -328,6 +343,64 @@ fn run_case_inner(case: &Case, c: &mut Cluster) -> CaseReport {
                 }
             }
             Op::Pause { ms } => std::thread::sleep(Duration::from_millis(*ms as u64)),
+            Op::PublishKillLeaderRemove { key, via, direct } => {
+                if let Err(e) = heal(c, &mut down) {
+                    return CaseReport::violation(labels.into_iter().collect(), true, format!("op #{}: node does not restart: {}", opi, e));
+                }
+                if c.wait_quiescent_nudged_opt(45, (0..3).find(|i| !frozen_as_leader.contains(i)).unwrap_or(0), true).is_err() {
+                    continue;
+                }
+                let l = match c.leader() {
+                    Some(l) => l,
+                    None => continue,
+                };
+                let k = 2 + (*key as usize % 2);
+                let (t, g, d) = KEYS[k];
+                seqs[k] += 1;
+                let res = c.publish(l, t, g, d, &content(k, seqs[k]));
+                let acked = matches!(res, Ok(true));
+                attempts.push(Attempt { key: k, seq: seqs[k], acked, what: format!("op #{} template: publish seq {} through the leader node {} -> {:?}", opi, seqs[k], l + 1, res), via_thawed_leader: false });
+                if !frozen_as_leader.is_empty() {
+                    WRITTEN_AFTER_FREEZE.with(|s| s.borrow_mut().insert(k));
+                }
+                c.kill(l);
+                down = Some((l, false));
+                labels.insert("kill_leader".into());
+                let survivors: Vec<usize> = (0..3).filter(|i| *i != l).collect();
+                let t0 = Instant::now();
+                let mut nl = None;
+                while t0.elapsed() < Duration::from_secs(25) && nl.is_none() {
+                    for f in &survivors {
+                        if c.metrics(*f).map(|m| m["state"] == "Leader").unwrap_or(false) {
+                            nl = Some(*f);
+                        }
+                    }
+                    std::thread::sleep(Duration::from_millis(100));
+                }
+                if nl.is_none() {
+                    continue;
+                }
+                let nd = survivors[*via as usize % 2];
+                if !*direct {
+                    seqs[0] += 1;
+                    let (t0k, g0, d0) = KEYS[0];
+                    let r0 = c.publish(nd, t0k, g0, d0, &content(0, seqs[0]));
+                    attempts.push(Attempt { key: 0, seq: seqs[0], acked: matches!(r0, Ok(true)), what: format!("op #{} template: publish key 0 seq {} through node {} before the remove -> {:?}", opi, seqs[0], nd + 1, r0), via_thawed_leader: false });
+                }
+                let rr = c.remove(nd, t, g, d);
+                attempts.push(Attempt { key: k, seq: 0, acked: matches!(rr, Ok(true)), what: format!("op #{} template: remove through node {} right after the leader change -> {:?}", opi, nd + 1, rr), via_thawed_leader: false });
+                if matches!(rr, Ok(true)) {
+                    labels.insert("remove_acknowledged_right_after_leader_change".into());
+                }
+                // the next write of the new term
+                seqs[1] += 1;
+                let (t1, g1, d1) = KEYS[1];
+                let r1 = c.publish(nd, t1, g1, d1, &content(1, seqs[1]));
+                attempts.push(Attempt { key: 1, seq: seqs[1], acked: matches!(r1, Ok(true)), what: format!("op #{} template: publish key 1 seq {} through node {} after the remove -> {:?}", opi, seqs[1], nd + 1, r1), via_thawed_leader: false });
+                labels.insert("publish_kill_leader_remove_template".into());
+                leader_changed_between_acks = true;
+                last_leader = c.leader();
+            }
             Op::DeposedLeader { key } => {
                 if let Err(e) = heal(c, &mut down) {
                     return CaseReport::violation(labels.into_iter().collect(), true, format!("op #{}: node does not restart: {}", opi, e));
@@ -593,7 +666,7 @@ pub fn main(ctx: &Ctx) -> i32 {
     let work = work_dir(ctx);
     let fin = || Finish {
         level: "exploration",
-        rule: "schedules on real 3-node clusters: per key one sequential writer issuing publish seq=1,2,.. (and removes on two of the four keys) to generated nodes over HTTP, interleaved with kill -9 / SIGSTOP of one node (any, or the leader), heal (restart / SIGCONT), pauses, and - in template schedules - the deposed-leader sequence (freeze followers, write to the leader, freeze the leader, thaw followers, write to the new leader, thaw the old leader). After healing and the quiescence rule: all three nodes serve the same content per key; that content is the effect of the last acknowledged op or of a later attempt; every acknowledged publish of a never-removed key is in the change history of every node. non-trivial = a leader change between two acknowledged writes of one key; distinct = hash of the schedule".into(),
+        rule: "schedules on real 3-node clusters: per key one sequential writer issuing publish seq=1,2,.. (and removes on two of the four keys) to generated nodes over HTTP, interleaved with kill -9 / SIGSTOP of one node (any, or the leader), heal (restart / SIGCONT), pauses, and - in template schedules - the deposed-leader sequence (freeze followers, write to the leader, freeze the leader, thaw followers, write to the new leader, thaw the old leader) or the publish / kill-leader / remove sequence (publish through the leader, kill -9 the leader once it has answered, wait for the survivors' election, remove the key through a survivor as the first or second write of the new term, write another key). After healing and the quiescence rule: all three nodes serve the same content per key; that content is the effect of the last acknowledged op or of a later attempt; every acknowledged publish of a never-removed key is in the change history of every node. non-trivial = a leader change between two acknowledged writes of one key; distinct = hash of the schedule".into(),
         assumptions: vec![
             "message schedules between processes are sampled by real execution, not controlled".into(),
             "at most one node is impaired at a time outside the deposed-leader template".into(),
@@ -630,6 +703,13 @@ pub fn main(ctx: &Ctx) -> i32 {
     let n_tmpl = ctx.tier.pick(4u32, 24u32);
     let w2 = work.clone();
     let fail = run_cases(ctx, &stats, (|| case_strategy(true)) as fn() -> _, n_tmpl, 4, 8, move |c| run_case(c, &w2, seed));
+    if fail.is_some() {
+        std::fs::remove_dir_all(&work).ok();
+        return finish(ctx, &stats, fin(), fail);
+    }
+    let w4 = work.clone();
+    let n_kr = ctx.tier.pick(5u32, 30u32);
+    let fail = run_cases(ctx, &stats, case_strategy_kill_remove as fn() -> _, n_kr, 5, 8, move |c| run_case(c, &w4, seed));
     if fail.is_some() {
         std::fs::remove_dir_all(&work).ok();
         return finish(ctx, &stats, fin(), fail);
